@@ -216,6 +216,7 @@ struct ExecOpts {
 
 // Build `t` in forest f along route `mode`: 0 = minterm collection (points in shuffled order),
 // 1 = point-by-point accumulation with UNION / MAXIMUM / MINIMUM, 2 = collection split in two halves combined by the same operation.
+static long g_aliasRoutes = 0;
 static inline void buildAlong(Rng& r, const World& w, forest* f, const FSpec& fs, const Table& t, int mode, dd_edge& out) {
     bool rel = fs.rel;
     const bool evp = fs.isEVP();
@@ -223,20 +224,26 @@ static inline void buildAlong(Rng& r, const World& w, forest* f, const FSpec& fs
     for (const Val& v : t) { if (evp ? valLess(bg, v) : valLess(v, bg)) bg = v; }     // min (MT) or max (EV+)
     std::vector<size_t> pts; for (size_t i = 0; i < t.size(); i++) if (!valEq(t[i], bg)) pts.push_back(i);
     r.shuffle(pts);
-    auto fill = [&](minterm& m, size_t i) { if (!rel) setMintermSet(f, w.shape, m, long(i)); else setMintermRel(f, w.shape, m, long(i) / w.N, long(i) % w.N); m.setValue(toRV(t[i])); };
+    // real-valued forests, one route in three: every zero is written as a double that is non-zero but underflows to 0 in
+    // single precision (the forests store floats), so it must be indistinguishable from 0 -- same function, same edge
+    static const double ALIAS[] = {1e-60, 1e-46, 4.9e-324};
+    const bool alias = fs.isReal() && r.chance(1, 3); const double az = ALIAS[r.below(3)];
+    auto rv = [&](const Val& v) { return (alias && v.k == Val::R && v.r == 0) ? rangeval(az) : toRV(v); };
+    if (alias) g_aliasRoutes++;
+    auto fill = [&](minterm& m, size_t i) { if (!rel) setMintermSet(f, w.shape, m, long(i)); else setMintermRel(f, w.shape, m, long(i) / w.N, long(i) % w.N); m.setValue(rv(t[i])); };
     auto coll = [&](size_t lo, size_t hi, dd_edge& e) {
         minterm_coll mc(unsigned(std::max<size_t>(1, hi - lo)), f);
         for (size_t k = lo; k < hi; k++) { fill(mc.unused(), pts[k]); mc.pushUnused(); }
-        if (evp) mc.buildFunctionMin(toRV(bg), e); else mc.buildFunctionMax(toRV(bg), e);
+        if (evp) mc.buildFunctionMin(rv(bg), e); else mc.buildFunctionMax(rv(bg), e);
     };
     out.attach(f);
     if (mode == 0 || pts.size() < 2) { coll(0, pts.size(), out); return; }
     binary_factory& acc = fs.isBool() ? UNION() : (evp ? MINIMUM() : MAXIMUM());
     if (mode == 2) { dd_edge a(f), b(f); size_t mid = pts.size() / 2; coll(0, mid, a); coll(mid, pts.size(), b); apply(acc, a, b, out); return; }
     // mode 1: accumulate single minterms
-    f->createConstant(toRV(bg), out);
+    f->createConstant(rv(bg), out);
     size_t limit = std::min<size_t>(pts.size(), 48);
-    for (size_t k = 0; k < limit; k++) { dd_edge one(f); minterm m(f); fill(m, pts[k]); m.buildFunction(toRV(bg), one); apply(acc, out, one, out); }
+    for (size_t k = 0; k < limit; k++) { dd_edge one(f); minterm m(f); fill(m, pts[k]); m.buildFunction(rv(bg), one); apply(acc, out, one, out); }
     if (limit < pts.size()) { dd_edge rest(f); coll(limit, pts.size(), rest); apply(acc, out, rest, out); }
 }
 
@@ -278,7 +285,7 @@ static inline RunResult runScript(const Script& S, const Config& cfg, Ctx& c, co
         long nodeCount = -1;
         switch (st.k) {
             case S_BUILD: { dd_edge e(F[size_t(st.forest)]); buildFromTable(w, F[size_t(st.forest)], st.table, e); E[size_t(st.dst)] = e; break; }
-            case S_REBUILD: { dd_edge e(F[size_t(st.forest)]); buildAlong(sr, w, F[size_t(st.forest)], fs[size_t(st.forest)], st.table, st.op, e); E[size_t(st.dst)] = e; break; }
+            case S_REBUILD: { dd_edge e(F[size_t(st.forest)]); const long ar0 = g_aliasRoutes; buildAlong(sr, w, F[size_t(st.forest)], fs[size_t(st.forest)], st.table, st.op, e); E[size_t(st.dst)] = e; if (g_aliasRoutes > ar0) c.count("rebuilds_with_zero_written_as_underflowing_double"); break; }
             case S_BIN: {
                 dd_edge res(F[size_t(st.forest)]);
                 phase(std::string("script:") + binName(st.op) + ":" + shortNameOf(fs[size_t(EF[size_t(st.a)])].rr) + "," + shortNameOf(fs[size_t(EF[size_t(st.b)])].rr) + "->" + shortNameOf(fs[size_t(st.forest)].rr));
